@@ -32,6 +32,7 @@ func init() {
 
 func runC19(c *report.Ctx) {
 	p := c.P
+	ruleAddressErrorsChecked(c) // a nil address inside a non-nil interface panics in the API handler that renders it
 
 	// ---- (1) nilness -----------------------------------------------------------------------
 	c.Rule("nilness", "x/tools nilness pass over every module package: diagnostics of the form 'nil dereference …' are provable crashes", 20)
